@@ -85,6 +85,7 @@ def replay_case(c):
         with contextlib.redirect_stdout(io.StringIO()):
             if op in ('select', 'delete', 'rename'):
                 rows = [{f: 10 * r + i for i, f in enumerate(schema)} for r in (1, 2)]
+                rows[1] = dict(reversed(list(rows[1].items())))          # the second row lists its keys in another order than the first
                 src = tuple_source([('t', [(f, 'integer') for f in schema], rows)])
                 if op == 'select':
                     step = DF.select_fields([render_re(p) for p in c['arg']], regex=regex)
